@@ -48,7 +48,7 @@ pub fn verif_concat2(a: &[u8], b: &[u8]) -> (r: Vec<u8>) ensures r@ == a@ + b@ {
 // ---- hashes / KDFs: uninterpreted, named
 pub uninterp spec fn blake3_kdf(context: Seq<char>, material: Seq<u8>) -> Seq<u8>;
 pub uninterp spec fn blake3_hash(x: Seq<u8>) -> Seq<u8>;
-pub uninterp spec fn hkdf_sha1(salt: Seq<u8>, ikm: Seq<u8>, info: Seq<char>, len: nat) -> Seq<u8>;
+pub uninterp spec fn hkdf_sha1(salt: Seq<u8>, ikm: Seq<u8>, info: Seq<u8>, len: nat) -> Seq<u8>;
 pub uninterp spec fn aes_ecb_enc(bits: int, key: Seq<u8>, block: Seq<u8>) -> Seq<u8>;
 pub uninterp spec fn aes_ecb_dec(bits: int, key: Seq<u8>, block: Seq<u8>) -> Seq<u8>;
 #[verifier::external_body]
@@ -56,7 +56,7 @@ pub broadcast proof fn axiom_blake3_kdf_len(c: Seq<char>, m: Seq<u8>) ensures #[
 #[verifier::external_body]
 pub broadcast proof fn axiom_blake3_hash_len(m: Seq<u8>) ensures #[trigger] blake3_hash(m).len() == 32 {}
 #[verifier::external_body]
-pub broadcast proof fn axiom_hkdf_len(s: Seq<u8>, k: Seq<u8>, i: Seq<char>, n: nat) ensures #[trigger] hkdf_sha1(s, k, i, n).len() == n {}
+pub broadcast proof fn axiom_hkdf_len(s: Seq<u8>, k: Seq<u8>, i: Seq<u8>, n: nat) ensures #[trigger] hkdf_sha1(s, k, i, n).len() == n {}
 #[verifier::external_body]
 pub broadcast proof fn axiom_ecb_inverse(bits: int, key: Seq<u8>, b: Seq<u8>)
     ensures #[trigger] aes_ecb_dec(bits, key, aes_ecb_enc(bits, key, b)) == b, aes_ecb_enc(bits, key, b).len() == b.len(), aes_ecb_dec(bits, key, b).len() == b.len() {}
@@ -143,4 +143,24 @@ impl<T> Mutex<T> {
     pub uninterp spec fn inner(&self) -> T;
     #[verifier::external_body]
     pub fn new(t: T) -> (r: Self) ensures r.inner() == t { unimplemented!() }
+}
+
+/// hkdf::Hkdf<Sha1> (TRUSTED): extract-then-expand over the uninterpreted hkdf_sha1; `expand` fails only for more than 255 * 20 output bytes (RFC 5869)
+pub struct Sha1;
+#[verifier::external_body]
+#[verifier::accept_recursive_types(H)]
+pub struct Hkdf<H> { _h: core::marker::PhantomData<H> }
+impl Hkdf<Sha1> {
+    pub uninterp spec fn salt(&self) -> Seq<u8>;
+    pub uninterp spec fn ikm(&self) -> Seq<u8>;
+    #[verifier::external_body]
+    pub fn new(salt: Option<&[u8]>, ikm: &[u8]) -> (r: Hkdf<Sha1>)
+        ensures r.ikm() == ikm@, r.salt() == (match salt { Some(s) => s@, None => Seq::empty() }),
+    { unimplemented!() }
+    #[verifier::external_body]
+    pub fn expand(&self, info: &[u8], okm: &mut [u8]) -> (r: Result<(), InvalidLength>)
+        ensures final(okm)@.len() == old(okm)@.len(),
+            r is Ok ==> final(okm)@ == hkdf_sha1(self.salt(), self.ikm(), info@, old(okm)@.len()),
+            old(okm)@.len() <= 5100 ==> r is Ok,
+    { unimplemented!() }
 }
